@@ -12,6 +12,15 @@
 //! * `vobs KEY LABEL BYTES`             regression cases for rpm-rs's own `Verifier` (fix c25de51): hand-made packages whose only
 //!                                      signature was made by the test key's SUBKEY (or primary key) over the header or over the
 //!                                      EMPTY message, with the issuer id listed once or twice: `verify=ok|err|parse-err`
+//! * `sigpkts KEY LABEL KIDS PKTTABLE B64TABLE BLOB BYTES`  (G3: `Verifier::parse_signature`) a hand-made package whose signature blob is
+//!                                      a SEQUENCE of OpenPGP packets (junk / garbage-in-a-frame / real signatures in some order, trailing
+//!                                      packets or bytes): `keyids=<id+id|none|err> verify=<ok|err> build=<267|268|none|err>` =
+//!                                      `signature_key_ids()`, `verify_signature(Verifier of KEY)` and the legacy tag
+//!                                      `SignatureHeaderBuilder::new().add_openpgp_signature(BLOB).build()` stores BLOB under.
+//!                                      KIDS (key ids of KEY's certificate: primary, subkeys) and PKTTABLE (what the `pgp` crate's
+//!                                      parser makes of every single packet, asked DIRECTLY: `N` or `S/<issuers>/<pub alg>/<one bit per
+//!                                      key of the certificate: that key verifies this signature over the header>`) are the model's
+//!                                      abstract packet parser, computed by `gen` for the driver; `eval` ignores them.
 use crate::common::*;
 use crate::pkggen::*;
 use sha2::Digest as _;
@@ -132,6 +141,7 @@ pub fn eval(op: &str, a: &[&str]) -> Option<String> {
         "vsig" => Some(vsig(a[0], &arg_bytes(a[2]))),
         "vorig" => verify_real(a[0], &arg_bytes(a[1])),
         "vobs" => verify_real(a[0], &arg_bytes(a[2])),
+        "sigpkts" => sigpkts(a[0], &arg_bytes(a[5]), &arg_bytes(a[6])),
         "vflip" => {
             let mut b = arg_bytes(a[2]);
             flip_bit(&mut b, a[1].parse().ok()?);
@@ -509,6 +519,318 @@ fn crafted_package(rng: &mut Rng, sig_of: impl FnOnce(&[u8]) -> Option<Vec<u8>>)
     Some(assemble(&gen_lead(rng, false), &sigh, 0, &hdr, &payload))
 }
 
+
+/* ---------------------------------------------------------------------------------------------
+ * G3: `Verifier::parse_signature` — signature blobs that are a sequence of packets
+ * ------------------------------------------------------------------------------------------- */
+
+fn sigpkts(key: &str, blob: &[u8], bytes: &[u8]) -> Option<String> {
+    let p = match rpm::Package::parse(&mut &bytes[..]) {
+        Ok(p) => p,
+        Err(_) => return Some("parse-err".into()),
+    };
+    let ids = match p.signature_key_ids() {
+        Ok(v) if v.is_empty() => "none".to_string(),
+        Ok(v) => v.join("+"),
+        Err(_) => "err".to_string(),
+    };
+    let ver = with_verifier(key, |v| if p.verify_signature(v).is_ok() { "ok" } else { "err" })?;
+    let build = match rpm::SignatureHeaderBuilder::new().add_openpgp_signature(blob.to_vec()).build() {
+        Err(_) => "err",
+        Ok(h) => {
+            if h.get_entry_data_as_binary(rpm::IndexSignatureTag::RPMSIGTAG_RSA).is_ok() { "268" }
+            else if h.get_entry_data_as_binary(rpm::IndexSignatureTag::RPMSIGTAG_DSA).is_ok() { "267" }
+            else { "none" }
+        }
+    };
+    Some(format!("keyids={} verify={} build={}", ids, ver, build))
+}
+
+/// what the `pgp` crate's parser makes of ONE packet — the model's abstract `parsePkt`, asked directly (not through rpm-rs)
+fn parse_one_packet(packet: &[u8]) -> Option<pgp::packet::Signature> {
+    let pk = packet.to_vec();
+    std::panic::catch_unwind(move || match pgp::packet::PacketParser::new(std::io::Cursor::new(&pk[..])).next() {
+        Some(Ok(pgp::packet::Packet::Signature(s))) => Some(s),
+        _ => None,
+    })
+    .unwrap_or(None)
+}
+
+/// the certificate behind a verifier key: (key ids: primary, subkeys…), and per signature one bit per key: does
+/// that key cryptographically accept the signature over `data` (`pgp::Signature::verify`, asked directly)
+struct Cert {
+    key: pgp::SignedPublicKey,
+}
+impl Cert {
+    fn load(path: &str) -> Option<Cert> {
+        use pgp::composed::Deserializable;
+        let asc = std::fs::read_to_string(path).ok()?;
+        let (key, _) = pgp::SignedPublicKey::from_string(&asc).ok()?;
+        Some(Cert { key })
+    }
+    fn kids(&self) -> Vec<Vec<u8>> {
+        use pgp::types::PublicKeyTrait;
+        let mut v = vec![self.key.key_id().as_ref().to_vec()];
+        for s in &self.key.public_subkeys {
+            v.push(s.key_id().as_ref().to_vec());
+        }
+        v
+    }
+    fn bits(&self, sig: &pgp::packet::Signature, data: &[u8]) -> String {
+        let mut out = String::new();
+        let ok = |r: bool| if r { '1' } else { '0' };
+        let s1 = sig.clone();
+        let (k, d) = (self.key.clone(), data.to_vec());
+        out.push(ok(std::panic::catch_unwind(move || s1.verify(&k, &d[..]).is_ok()).unwrap_or(false)));
+        for sub in &self.key.public_subkeys {
+            let (s1, k, d) = (sig.clone(), sub.clone(), data.to_vec());
+            out.push(ok(std::panic::catch_unwind(move || s1.verify(&k, &d[..]).is_ok()).unwrap_or(false)));
+        }
+        out
+    }
+}
+
+/// PKTTABLE entry of one packet
+fn pkt_entry(cert: &Cert, packet: &[u8], data: &[u8]) -> String {
+    match parse_one_packet(packet) {
+        None => format!("{}=N", hx_dot(packet)),
+        Some(sig) => {
+            let iss: Vec<String> = sig.issuer().iter().map(|k| hex::encode(k.as_ref())).collect();
+            format!(
+                "{}=S/{}/{}/{}",
+                hx_dot(packet),
+                if iss.is_empty() { "-".to_string() } else { iss.join("+") },
+                u8::from(sig.config.pub_alg),
+                cert.bits(&sig, data)
+            )
+        }
+    }
+}
+
+/// (header length, body length) of the packet that starts `b` (RFC 4880 §4.2) — the harness's own reading, used only to
+/// take signatures made by the library apart and re-frame them
+fn frame_of(b: &[u8]) -> Option<(usize, usize)> {
+    let t = *b.first()?;
+    if t & 0x80 == 0 { return None; }
+    if t & 0x40 != 0 {
+        let a = *b.get(1)? as usize;
+        if a < 192 { Some((2, a)) }
+        else if a < 224 { Some((3, ((a - 192) << 8) + *b.get(2)? as usize + 192)) }
+        else if a == 255 { Some((6, u32::from_be_bytes([*b.get(2)?, *b.get(3)?, *b.get(4)?, *b.get(5)?]) as usize)) }
+        else { None }
+    } else {
+        match t & 3 {
+            0 => Some((2, *b.get(1)? as usize)),
+            1 => Some((3, u16::from_be_bytes([*b.get(1)?, *b.get(2)?]) as usize)),
+            2 => Some((5, u32::from_be_bytes([*b.get(1)?, *b.get(2)?, *b.get(3)?, *b.get(4)?]) as usize)),
+            _ => Some((1, b.len() - 1)),
+        }
+    }
+}
+
+/// the body of signature packet `sig` under another packet header: old format with 1 / 2 / 4 length octets or
+/// indeterminate length, new format with 1 / 2 / 5 length octets (`None` when the length does not fit the style)
+fn reframe(sig: &[u8], style: &str) -> Option<Vec<u8>> {
+    let (h, n) = frame_of(sig)?;
+    let body = sig.get(h..h + n)?;
+    let mut v = Vec::new();
+    match style {
+        "old1" => { if n > 255 { return None; } v.push(0x88); v.push(n as u8); }
+        "old2" => { if n > 65535 { return None; } v.push(0x89); v.extend_from_slice(&(n as u16).to_be_bytes()); }
+        "old4" => { v.push(0x8a); v.extend_from_slice(&(n as u32).to_be_bytes()); }
+        "oldx" => { v.push(0x8b); }
+        "new1" => { if n >= 192 { return None; } v.push(0xc2); v.push(n as u8); }
+        "new2" => { if !(192..8384).contains(&n) { return None; } v.push(0xc2); v.push(((n - 192) >> 8) as u8 + 192); v.push((n - 192) as u8); }
+        _ => { v.push(0xc2); v.push(255); v.extend_from_slice(&(n as u32).to_be_bytes()); }
+    }
+    v.extend_from_slice(body);
+    Some(v)
+}
+
+/// one blob: its label, the packets it is MEANT to consist of (what the framing must find), raw bytes appended
+/// behind them (not framed: the whole blob must then be refused)
+pub struct PktBlob {
+    pub label: String,
+    pub packets: Vec<Vec<u8>>,
+    pub tail: Vec<u8>,
+}
+impl PktBlob {
+    pub fn bytes(&self) -> Vec<u8> {
+        let mut v: Vec<u8> = self.packets.concat();
+        v.extend_from_slice(&self.tail);
+        v
+    }
+}
+
+fn sign_with(key: &(&str, &str, &str, Option<&str>), msg: &[u8]) -> Option<Vec<u8>> {
+    use rpm::signature::Signing;
+    let raw = std::fs::read(key.1).ok()?;
+    let signer = rpm::signature::pgp::Signer::load_from_asc_bytes(&raw).ok()?;
+    let signer = match key.3 { Some(p) => signer.with_key_passphrase(p), None => signer };
+    signer.sign(msg, rpm::Timestamp::from(1_600_000_000u32)).ok()
+}
+
+/// the compositions of gap G3 for the signature `a` (good: made by the key under test over `msg`), `b` (a real
+/// signature over `msg` by ANOTHER key), `e` (by the key under test over the EMPTY message), optional subkey signatures
+pub fn packet_blobs(rng: &mut Rng, a: &[u8], b: &[u8], e: &[u8], sub: Option<(&[u8], &[u8])>) -> Vec<PktBlob> {
+    let uid: Vec<u8> = vec![0xb4, 3, b'a', b'b', b'c'];
+    let marker: Vec<u8> = vec![0xca, 3, b'P', b'G', b'P'];
+    let n1 = 4 + rng.below(40) as usize;
+    let mut g_old = vec![0x88, n1 as u8];               // signature tag, old format, garbage body
+    g_old.extend(rng.bytes(n1));
+    let n2 = 1 + rng.below(100) as usize;
+    let mut g_new = vec![0xc2, n2 as u8];               // signature tag, new format, garbage body
+    g_new.extend(rng.bytes(n2));
+    let mut g_unk = vec![0xfe, 3];                      // new format, tag 62 (unassigned)
+    g_unk.extend(rng.bytes(3));
+    let zero: Vec<u8> = vec![0x88, 0];                  // signature packet without a body
+    let mut g_cut = a[..a.len() / 2].to_vec();          // the first half of the real signature in a frame of its own
+    g_cut = { let mut v = vec![0x8a]; v.extend_from_slice(&(g_cut.len() as u32).to_be_bytes()); v.extend(g_cut); v };
+    let (a, b, e) = (a.to_vec(), b.to_vec(), e.to_vec());
+    let mut out: Vec<PktBlob> = Vec::new();
+    let mut add = |label: &str, packets: Vec<&Vec<u8>>, tail: &[u8]| {
+        out.push(PktBlob { label: label.to_string(), packets: packets.into_iter().cloned().collect(), tail: tail.to_vec() })
+    };
+    add("single", vec![&a], &[]);
+    add("junk-sig", vec![&uid, &a], &[]);
+    add("junk-junk-sig", vec![&marker, &uid, &a], &[]);
+    add("garbage-old-sig", vec![&g_old, &a], &[]);
+    add("garbage-new-sig", vec![&g_new, &a], &[]);
+    add("garbage-unknown-tag-sig", vec![&g_unk, &a], &[]);
+    add("garbage-zero-body-sig", vec![&zero, &a], &[]);
+    add("garbage-half-sig-sig", vec![&g_cut, &a], &[]);
+    add("sig-othersig", vec![&a, &b], &[]);
+    add("othersig-sig", vec![&b, &a], &[]);
+    add("othersig", vec![&b], &[]);
+    add("sig-junk", vec![&a, &uid], &[]);
+    add("sig-garbage", vec![&a, &g_old], &[]);
+    add("sig-sig", vec![&a, &a], &[]);
+    add("sig-emptymsgsig", vec![&a, &e], &[]);
+    add("sig-junk-junk-othersig", vec![&a, &uid, &marker, &b], &[]);
+    add("emptymsgsig-sig", vec![&e, &a], &[]);
+    add("junk-emptymsgsig-sig", vec![&uid, &e, &a], &[]);
+    add("emptymsgsig", vec![&e], &[]);
+    add("sig-then-zero-byte", vec![&a], &[0x00]);
+    add("sig-then-text", vec![&a], b"trailer");
+    add("sig-then-truncated-header", vec![&a], &[0x89, 0x02]);
+    add("sig-then-oversize-packet", vec![&a], &[0x88, 5, 1]);
+    add("sig-then-partial-length", vec![&a], &[0xc2, 0xe0, 1]);
+    add("junk-then-zero-byte", vec![&uid], &[0x00]);
+    add("truncated-sig", vec![], &a[..a.len() - 1]);
+    add("junk-truncated-sig", vec![&uid], &a[..a.len() - 1]);
+    add("nosig-junk-junk", vec![&uid, &marker], &[]);
+    add("nosig-garbage", vec![&g_old], &[]);
+    add("nosig-empty", vec![], &[]);
+    for style in ["old1", "old2", "old4", "oldx", "new1", "new2", "new5"] {
+        if let Some(r) = reframe(&a, style) {
+            add(&format!("reframed-{}", style), vec![&r], &[]);
+            add(&format!("junk-reframed-{}", style), vec![&uid, &r], &[]);
+            if style == "oldx" {
+                // indeterminate length: the packet reaches to the end of the blob, whatever follows belongs to it
+                let mut sw = r.clone();
+                sw.extend_from_slice(&uid);
+                add("reframed-oldx-swallows-junk", vec![&sw], &[]);
+                let mut sw = r.clone();
+                sw.extend_from_slice(&b);
+                add("reframed-oldx-swallows-othersig", vec![&sw], &[]);
+            } else {
+                add(&format!("reframed-{}-othersig", style), vec![&r, &b], &[]);
+            }
+        }
+    }
+    if let Some((s1, s2)) = sub {
+        let (s1, s2) = (s1.to_vec(), s2.to_vec());
+        add("subkeysig", vec![&s1], &[]);
+        add("junk-subkeysig", vec![&uid, &s1], &[]);
+        add("subkeysig-sig", vec![&s1, &a], &[]);
+        add("sig-subkeysig", vec![&a, &s1], &[]);
+        add("othersig-subkeysig", vec![&b, &s1], &[]);
+        add("subkeysig-issuer-twice-junk", vec![&s2, &uid], &[]);
+    }
+    out
+}
+
+/// the same compositions over real signatures of all test keys on a fixed message — for C04 (framing of hostile
+/// signature blobs: `pgpframes`, and the allocation-counted read side on packages that carry them)
+pub fn packet_blobs_all_keys(seed: u64) -> Vec<PktBlob> {
+    let msg = b"signature blob of several packets";
+    let good: Vec<Option<Vec<u8>>> = KEYS.iter().map(|k| sign_with(k, msg)).collect();
+    let mut out = Vec::new();
+    for (ki, key) in KEYS.iter().enumerate() {
+        let (Some(a), Some(b)) = (good[ki].clone(), good[(ki + 1) % KEYS.len()].clone()) else { continue };
+        let Some(e) = sign_with(key, &[]) else { continue };
+        let mut blobs = packet_blobs(&mut Rng::new(seed ^ 0xC04_63 ^ ((ki as u64) << 16)), &a, &b, &e, None);
+        for pb in blobs.iter_mut() { pb.label = format!("{}:{}", key.0, pb.label); }
+        out.extend(blobs);
+    }
+    out
+}
+
+pub fn b64_text(b: &[u8]) -> Vec<u8> { b64_encode(b) }
+
+fn emit_sigpkts(ctx: &mut Ctx, seed: u64, sn: u64, si: u64, idx: &mut u64) {
+    // one unsigned main header for all keys; every signature is made over its bytes
+    let mut r = Rng::new(seed ^ 0x6_3333);
+    let payload = r.bytes(24);
+    let main: Vec<Ent> = vec![
+        (1000, 6, TData::Str(b"several-packets".to_vec())),
+        (1001, 6, TData::Str(b"3.3.3".to_vec())),
+        (TAG_PD, 8, TData::Strs(vec![hex::encode(sha2::Sha256::digest(&payload)).into_bytes()])),
+        (TAG_PDA, 4, TData::U32(vec![8])),
+    ];
+    let hdr = header_of(&main);
+    let hb = hdr.bytes();
+    let lead = gen_lead(&mut r, false);
+    let digest: Ent = (SIG_SHA256, 6, TData::Str(hex::encode(sha2::Sha256::digest(&hb)).into_bytes()));
+    let good: Vec<Option<Vec<u8>>> = KEYS.iter().map(|k| sign_with(k, &hb)).collect();
+    for (ki, key) in KEYS.iter().enumerate() {
+        let label_fail = |ctx: &mut Ctx, why: &str| ctx.emit(&format!("sigpkts {} {} - - - - -", key.0, why), "cannot-build");
+        let (Some(a), Some(b)) = (good[ki].clone(), good[(ki + 1) % KEYS.len()].clone()) else { label_fail(ctx, "cannot-sign"); continue };
+        let Some(e) = sign_with(key, &[]) else { label_fail(ctx, "cannot-sign"); continue };
+        let Some(cert) = Cert::load(key.2) else { label_fail(ctx, "cannot-load-certificate"); continue };
+        let sub = if key.0 == "rsa_test" {
+            match (subkey_signature(&hb, false), subkey_signature(&hb, true)) { (Some(x), Some(y)) => Some((x, y)), _ => None }
+        } else { None };
+        let kids: Vec<String> = cert.kids().iter().map(|k| hex::encode(k)).collect();
+        let blobs = packet_blobs(&mut Rng::new(seed ^ 0x6_3333 ^ ((ki as u64) << 16)), &a, &b, &e, sub.as_ref().map(|(x, y)| (&x[..], &y[..])));
+        for (bi, pb) in blobs.iter().enumerate() {
+            let blob = pb.bytes();
+            // placements: the OPENPGP string array (base64 text) always; the legacy binary tags and a two-entry array for some
+            let mut placements: Vec<&str> = vec!["openpgp"];
+            match bi % 4 { 0 => placements.push("rsa"), 1 => placements.push("dsa"), 2 => placements.push("openpgp2"), _ => {} }
+            for pl in placements {
+                *idx += 1;
+                if (*idx - 1) % sn != si { continue; }
+                let mut texts: Vec<Vec<u8>> = Vec::new();
+                let mut packets: Vec<Vec<u8>> = pb.packets.clone();
+                let sig: Vec<Ent> = match pl {
+                    "openpgp" => { texts.push(b64_encode(&blob)); vec![(SIG_OPENPGP, 8, TData::Strs(texts.clone())), digest.clone()] }
+                    "openpgp2" => {
+                        // a second entry: the good signature alone (every entry must verify; key ids are listed per entry)
+                        texts.push(b64_encode(&blob));
+                        texts.push(b64_encode(&a));
+                        packets.push(a.clone());
+                        vec![(SIG_OPENPGP, 8, TData::Strs(texts.clone())), digest.clone()]
+                    }
+                    "rsa" => vec![(SIG_RSA, 7, TData::Bytes(blob.clone())), digest.clone()],
+                    _ => vec![(SIG_DSA, 7, TData::Bytes(blob.clone())), digest.clone()],
+                };
+                if (pl == "rsa" || pl == "dsa") && blob.is_empty() { continue; }
+                let pkg = assemble(&lead, &header_of(&sig), 0, &hdr, &payload);
+                let mut seen: Vec<&Vec<u8>> = Vec::new();
+                let mut entries: Vec<String> = Vec::new();
+                for p in &packets {
+                    if seen.contains(&p) { continue; }
+                    seen.push(p);
+                    entries.push(pkt_entry(&cert, p, &hb));
+                }
+                let table = if entries.is_empty() { "-".to_string() } else { entries.join(",") };
+                ctx.req(&format!("sigpkts {} {}@{} {} {} {} {} {}", key.0, pb.label, pl, kids.join(","), table, table_of(&texts), hx(&blob), hx(&pkg)));
+            }
+        }
+    }
+}
+
 pub fn gen(ctx: &mut Ctx) {
     let (si, sn) = ctx.shard;
     let mut idx: u64 = 0;
@@ -548,6 +870,9 @@ pub fn gen(ctx: &mut Ctx) {
             }
         }
     }
+
+    /* ---------------- G3: signature blobs made of several packets (`Verifier::parse_signature`) ---------------- */
+    emit_sigpkts(ctx, seed, sn, si, &mut idx);
 
     /* ---------------- (a) exhaustive product of signature-header shapes ---------------- */
     // OPENPGP states
